@@ -6,6 +6,7 @@ RULE = ("requests: Float01 (f32, f64, Random::float01) for all 65 leading-zero c
         "next_f32/next_f64 of every generator through the word/std streams; "
         "extra (implementation only, exact counting by interval search with real calls): the number of first words Float01 maps into each binade [2^-(k+1), 2^-k) must be exactly 2^(63-k) "
         "for every k < 64 (all words covered: the step function first word -> binade is resolved completely), the mantissa field must take probed values for exactly 2^12 (f64: 64-bit second word) / 2^9 (f32: 32-bit second word) words each, "
+        "twin runs (ChaCha at every buffer offset, SplitMix64, Wyrand): the float equals the top bits of the raw word the generator returns at the same point of the same history; "
         "and next_f64 / next_f32 through the standard distribution must hit probed values of [1,2) by equally many words; non-trivial = all; distinct = distinct request line")
 ASSUMPTIONS = []
 
@@ -19,6 +20,12 @@ def generate(r, tier, build):
     for _ in range(200 * k):
         gen = r.choice(["xoshiro", "splitmix", "wyrand"])
         reqs.append("word gen=%s seed=%d via=from_seed ops=%s" % (gen, r.edge64(), ",".join(r.choice(["f32", "f64"]) for _ in range(r.range(1, 6)))))
+    # ChaCha's unit floats at every buffer offset (correspondence with the block-generator model)
+    from . import gen_chacha as GC
+    for _ in range(150 * k):
+        kk, c, st, N = GC.key(r), GC.counter(r), GC.stream(r), GC.rounds(r)
+        ops = ["fill:%d" % r.choice([252, 248, 250, 253, 255, 256, r.below(260)])] + [r.choice(["f32", "f64", "f64", "u32", "u64"]) for _ in range(r.range(1, 5))]
+        reqs.append("chacha n=%d key=%s ctr=%d str=%d ops=%s" % (N, ",".join(map(str, kk)), c, st, ",".join(ops)))
     # Xoshiro256 with injected states whose raw word (xoshiro256+: s0 + s3) has a chosen mantissa field: all zero (exactly 1.0), all ones, single bits, random
     for _ in range(300 * k):
         op = r.choice(["f32", "f64"])
@@ -126,6 +133,39 @@ def extra(binary, build, tier, rng):
                 c = next(c for c, (_, _, n) in info.items() if n != (1 << L) // r)
                 yield {"kind": "oracle", "build": build, "request": mk(info[c][0]), "impl": str(info[c]), "model": "",
                        "oracle": "Float01 (w=%d): mantissa value %d is produced by %d second words, not 2^%d (not a full-width mantissa)" % (w, c, info[c][2], L - mb)}
+    # twin runs: the unit float a generator returns must be the top bits of the raw word it would have returned at the same point of the
+    # same history - for ChaCha at every buffer offset (the prefix contains byte fills), for SplitMix64 and Wyrand (Xoshiro256 derives
+    # its floats from xoshiro256+, not from next_u64: covered by the injected-state requests)
+    from . import gen_chacha as GC
+    twins = []
+    for _ in range(150 if tier == "quick" else 5000):
+        op, raw = rng.choice([("f64", "u64"), ("f32", "u32")])
+        if rng.chance(2, 3):
+            kk, c, s, N = GC.key(rng), GC.counter(rng), GC.stream(rng), GC.rounds(rng)
+            pre = ["fill:%d" % rng.choice([252, 251, 253, 248, 249, 250, 254, 255, 256, 4, 3, 1, 0, rng.below(260)])] if rng.chance(3, 4) else []
+            pre += [rng.choice(["u32", "u64", "f32", "f64", "fill:%d" % rng.below(9)]) for _ in range(rng.below(4))]
+            head = "chacha n=%d key=%s ctr=%d str=%d ops=" % (N, ",".join(map(str, kk)), c, s)
+        else:
+            pre = [rng.choice(["u32", "u64", "f32", "f64", "fill:%d" % rng.below(20), "jump"]) for _ in range(rng.below(4))]
+            head = "word gen=%s seed=%d via=from_seed ops=" % (rng.choice(["splitmix", "wyrand"]), rng.edge64())
+        twins.append((head + ",".join(pre + [op]), head + ",".join(pre + [raw]), op, len(pre)))
+    # every word-aligned and unaligned offset near the end of the 256-byte buffer, both widths, all round counts
+    for N in (8, 12, 20):
+        for off in (240, 244, 247, 248, 249, 250, 251, 252, 253, 254, 255, 256):
+            for op, raw in (("f64", "u64"), ("f32", "u32")):
+                head = "chacha n=%d key=1,2,3,4,5,6,7,8 ctr=7 str=1 ops=" % N
+                twins.append((head + "fill:%d,%s" % (off, op), head + "fill:%d,%s" % (off, raw), op, 1))
+    rc, res, err = C.run_lines(binary, ["run"], [q for t in twins for q in t[:2]])
+    for k, (qf, qr, op, npre) in enumerate(twins):
+        tf, tr = res[2 * k].split(), res[2 * k + 1].split()
+        if len(tf) <= npre or len(tr) <= npre or not tf[npre].startswith("f:") or not tr[npre].isdigit():
+            continue
+        got, word = int(tf[npre][2:]), int(tr[npre])
+        want = (1023 << 52 | word >> 12) if op == "f64" else (127 << 23 | word >> 9)
+        if got != want:
+            yield {"kind": "oracle", "build": build, "request": qf, "requests": [qf, qr], "impl": res[2 * k][:200], "model": res[2 * k + 1][:200],
+                   "oracle": "next_%s returned bits %#x where the generator's raw word at this point is %#x: not the value of [1,2) whose mantissa is the word's top bits (%#x)" % (op, got, word, want)}
+    yield {"kind": "count", "what": "float-vs-raw-word-twins", "n": len(twins), "distinct": len(twins)}
     # next_f64 / next_f32 (standard distribution over a scripted word source): probed values of [1,2) are hit by equally many words
     prof = "release" if build == "release" else "debug"
     for ty, mb, one in (("f64", 52, 0x3FF0000000000000), ("f32", 23, 0x3F800000)):
